@@ -54,7 +54,7 @@ CLAIMED = {
 }
 
 ENGINES = {
- 'lean-core-machine': 'Lean 4 model of Manager/BaseComponent/Event/Value (CV.Model.Core.*), cvdriver model `core`, DSL harness core_dsl.py',
+ 'lean-core-machine': 'Lean 4 model of Manager/BaseComponent/Event/Value (CV.Model.Core.*), small-step machine CV.Model.Core.Step (cvdriver model `core2`, the one the checks use) and big-step CV.Model.Core.Machine (`core`, kept in sync by tools/diff_core.py), DSL harness core_dsl.py',
  'lean-wake': 'Lean 4 interleaving model of the fire()/generate_events wake-up protocol + controlled scheduler',
  'lean-net': 'Lean 4 models of pollers and stream endpoints + scripted socket doubles',
  'lean-http': 'Lean 4 models of the HTTP parser / response writer / static dispatcher + in-process HTTP harness',
